@@ -71,6 +71,7 @@ type Exec struct {
 	epochSeq int
 	bvSeq    int
 	anchorHit map[int]bool
+	fieldRefs map[string]Step // interior field-pointer encodings: function name -> field step
 	Assumptions map[string]bool
 }
 
@@ -79,7 +80,7 @@ func NewExec(p *Prog, fn *ssa.Function) *Exec {
 		MaxStates: 60000, labelCount: map[string]int{}, instrLabel: map[ssa.Instruction]string{},
 		DefaultExterns: map[string]bool{}, UsedExterns: map[string]bool{}, UsedContracts: map[string]bool{},
 		strLits: map[string]string{}, retOrd: map[*ssa.Return]int{}, callOrd: map[ssa.Instruction]string{},
-		smokeCount: map[string]int{}, Inlined: map[string]bool{}, Assumptions: map[string]bool{}, anchorHit: map[int]bool{}}
+		smokeCount: map[string]int{}, Inlined: map[string]bool{}, Assumptions: map[string]bool{}, anchorHit: map[int]bool{}, fieldRefs: map[string]Step{}}
 	x.TM = NewTypeMap(x.D)
 	x.FC = p.Contracts[fn.String()]
 	if x.FC != nil {
@@ -609,7 +610,9 @@ func (x *Exec) val(st *State, v ssa.Value) Value {
 
 func (x *Exec) funcRef(fn *ssa.Function) string {
 	name := "fn." + sanitize(fn.String())
-	return x.D.Const(name, SInt)
+	c := x.D.Const(name, SInt)
+	x.D.Axiom(fmt.Sprintf("(< %s 0)", c))
+	return c
 }
 
 func (x *Exec) globalPtr(g *ssa.Global) Value {
@@ -679,7 +682,10 @@ func (x *Exec) ptrTerm(v Value) string {
 		if s.IsIndex {
 			t = x.elemRef(t, s.Index)
 		} else {
-			f := x.D.Fun("fieldref."+sanitize(s.St.Field(s.Field).Name()), []string{SInt}, SInt)
+			name := "fieldref." + x.TM.structName(s.Struct)[2:] + "." + sanitize(s.St.Field(s.Field).Name())
+			f := x.D.Fun(name, []string{SInt}, SInt)
+			x.fieldRefs[name] = s
+			x.D.Axiom(fmt.Sprintf("(forall ((b!q Int)) (! (< (%s b!q) 0) :pattern ((%s b!q))))", name, name))
 			t = app(f, t)
 		}
 	}
@@ -764,7 +770,33 @@ func (x *Exec) updateSteps(term string, t types.Type, steps []Step, nv string) s
 	return app("mk."+sortName, fs...)
 }
 
+// decodePtr rebuilds the engine pointer of an interior field pointer that travelled as a term
+// (e.g. &s.f boxed into an interface and unboxed again).
+func (x *Exec) decodePtr(pv Value) Value {
+	if pv.Ptr != nil || !strings.HasPrefix(pv.Term, "(fieldref.") {
+		return pv
+	}
+	parts := splitSexp(pv.Term[1 : len(pv.Term)-1])
+	if len(parts) != 2 {
+		return pv
+	}
+	step, ok := x.fieldRefs[parts[0]]
+	if !ok {
+		return pv
+	}
+	inner := x.decodePtr(Value{Term: parts[1], Sort: SInt})
+	np := &Pointer{Base: parts[1], Elem: step.St.Field(step.Field).Type()}
+	if inner.Ptr != nil {
+		np.Base = inner.Ptr.Base
+		np.Steps = append(np.Steps, inner.Ptr.Steps...)
+	}
+	np.Steps = append(np.Steps, step)
+	pv.Ptr = np
+	return pv
+}
+
 func (x *Exec) load(st *State, pv Value, assume bool) Value {
+	pv = x.decodePtr(pv)
 	p := pv.Ptr
 	if p == nil {
 		// plain Ref term: pointer to pointee type
@@ -891,6 +923,7 @@ func (x *Exec) storeObject(st *State, base string, t types.Type, v string) {
 }
 
 func (x *Exec) store(st *State, pv Value, v Value, ins ssa.Instruction) {
+	pv = x.decodePtr(pv)
 	p := pv.Ptr
 	if p == nil {
 		pt, ok := types.Unalias(pv.Typ).Underlying().(*types.Pointer)
@@ -1104,6 +1137,10 @@ func (x *Exec) unop(st *State, ins *ssa.UnOp) Value {
 	v := x.val(st, ins.X)
 	switch ins.Op {
 	case token.MUL:
+		if g, ok := ins.X.(*ssa.Global); ok && g.Name() == "init$guard" {
+			// the initialiser is verified for its first (only effective) run
+			return boolV("false")
+		}
 		if v.Ptr == nil {
 			x.emit(st, "nil", x.labelFor(ins, "nil", "*"+describe(ins.X)), Not(Eq(v.Term, "0")), "")
 			st.Assume(Not(Eq(v.Term, "0")))
@@ -1609,7 +1646,8 @@ func (x *Exec) mapLen(st *State, m Value) string {
 	arr := Select(has, m.Term)
 	t := app(f, arr)
 	empty := fmt.Sprintf("((as const (Array %s Bool)) false)", ks)
-	st.Assume(fmt.Sprintf("(and (>= %s 0) (= (= %s 0) (= %s %s)))", t, t, arr, empty))
+	wit := x.D.Fun("mapwit."+sortName(ks), []string{fmt.Sprintf("(Array %s Bool)", ks)}, ks)
+	st.Assume(fmt.Sprintf("(and (>= %s 0) (= (= %s 0) (= %s %s)) (=> (> %s 0) (select %s (%s %s))))", t, t, arr, empty, t, arr, wit, arr))
 	return Ite(Eq(m.Term, "0"), "0", t)
 }
 
